@@ -54,7 +54,10 @@ def agent_trace(n, alpha: Fraction | None, eps: float, q0: Fraction, steps, seed
             ev.append({"e": "policy", "a": int(a) if isinstance(a, int) or hasattr(a, "__int__") else -9, "eps0": eps == 0.0, "twin": int(b)})
         else:
             best = st[1]
-            r = env.get_reward(None, float(best))
+            try:
+                r = env.get_reward(None, float(best))
+            except Exception:  # noqa: BLE001
+                r = -12345.0
             rr, c1 = rat(r)
             ra, c2 = rat(env._curr_best_loss)  # noqa: SLF001
             ev.append({"e": "reward", "best": [best.numerator, best.denominator], "r": rr, "refafter": ra, "close": c1 and c2})
@@ -93,7 +96,10 @@ def run(tier: str) -> int:
                 elif k < 0.8 or k < 0.5:
                     steps.append(("policy",))
                 else:
-                    b = cur * rng.choice([Fraction(1, 2), Fraction(1), Fraction(2), Fraction(3, 4), Fraction(1, 4)])
+                    if cur == 0:
+                        b = rng.choice([Fraction(0), Fraction(1, 2), Fraction(3)])      # a perfect fit was found: nothing improves on it
+                    else:
+                        b = cur * rng.choice([Fraction(1, 2), Fraction(1), Fraction(2), Fraction(3, 4), Fraction(1, 4), Fraction(0)])
                     steps.append(("reward", b))
                     cur = min(cur, b)
             seed = rng.randrange(10**6)
